@@ -67,7 +67,7 @@ def standin_densities(tier, seed):
     return dict(evaluations=evals, distinct_nontrivial=evals,
                 rule="one evaluation = one call of a real *_nll on a seeded random tensor layout compared entry-wise with scipy.stats; "
                      "all draws are distinct",
-                samples=samples, violations=violations[:3],
+                samples=samples, violations=violations[:60],
                 bound=dict(space="seeded random values and shapes", repetitions=reps, exhaustive=False, seed=seed))
 
 
